@@ -164,3 +164,31 @@ Lemma get_result_history_dependent_l :
   (* after a drained stream the stored orchestrator's collection is empty: get_result raises "No results found" *)
   snd (exec true (after_s (prepare ex_plan None) [ok; str]) OGet) = {| r_status := RRaised; r_items := []; r_api := ex_api 3 |}.
 Proof. vm_compute. repeat split; reflexivity. Qed.
+
+(* ---------- execution modes ---------- *)
+Require Import MV.Model.Modes.
+
+(* the result of a run does not depend on the history at all -- in particular not on the modes the earlier operations ran in *)
+Lemma run_history_irrelevant_l : forall p a0 pre pre' o, is_run o = true ->
+  snd (exec true (after_s (prepare p a0) pre) o) = snd (exec true (after_s (prepare p a0) pre') o).
+Proof. intros p a0 pre pre' o Hr. rewrite !run_history_independent_l by exact Hr. reflexivity. Qed.
+
+Lemma run_after_any_modes_l : forall p a0 pre ms o, is_run o = true ->
+  snd (exec true (after_s (prepare p a0) (remode ms pre)) o) = alone p a0 o.
+Proof. intros. apply run_history_independent_l. assumption. Qed.
+
+Lemma set_mode_is_run : forall m o, is_run (set_mode m o) = is_run o.
+Proof. intros m [ | | ]; reflexivity. Qed.
+
+(* a run in mode m after any history equals the run in mode m on a brand-new orchestrator *)
+Lemma run_in_mode_history_independent_l : forall p a0 pre m o, is_run o = true ->
+  snd (exec true (after_s (prepare p a0) pre) (set_mode m o)) = alone p a0 (set_mode m o).
+Proof. intros. apply run_history_independent_l. rewrite set_mode_is_run. assumption. Qed.
+
+(* the two asynchronous modes are one and the same operation of the model (same schedule, same outcome) *)
+Lemma threading_mp_same_l : forall o, set_mode MThreading o = set_mode MMultiprocessing o.
+Proof. intros [ | | ]; reflexivity. Qed.
+
+(* the session's own plan never carries a step_is_done flag, whatever modes the history used *)
+Lemma master_flags_clean_modes_l : forall p a0 ms h, s_flags (after_s (prepare p a0) (remode ms h)) = [].
+Proof. intros. apply master_flags_clean_l. Qed.
